@@ -1,7 +1,9 @@
 package main
 
 import (
+	"fmt"
 	"net/netip"
+	"time"
 )
 
 // C03 (a): datagram sequences through the recording driver on the three delivery paths.
@@ -127,6 +129,9 @@ func runC03(o Opts) error {
 			apiCase(s, cfg, oc, Script{Kind: "error"}, "seq/"+pathNames[path]+"/driver-error", nil, true)
 		}
 	}
+	if o.Replay == "" {
+		netC03(s, o.Tier)
+	}
 	return s.Close()
 }
 
@@ -194,4 +199,55 @@ func runC11(o Opts) error {
 	}
 	apiCase(s, Cfg{}, gd, Script{Kind: "error"}, "discovery/driver-error", nil, false)
 	return s.Close()
+}
+
+// socket-level half of C03: the REAL driver on loopback; the controller answers with a datagram that is not a well-formed
+// reply from the addressed controller - on no path may the call return it as a result
+func netC03(s *Sink, tier string) {
+	farm, err := NewFarm()
+	if err != nil {
+		s.Extra["net_stream"] = "skipped: " + err.Error()
+		return
+	}
+	defer farm.Close()
+	T := 150 * time.Millisecond
+	rounds := 1
+	if tier == "thorough" {
+		rounds = 10
+	}
+	calls, accepted := 0, 0
+	for round := 0; round < rounds; round++ {
+		for path := 0; path < 3; path++ {
+			for m := 0; m < len(mangleNames); m++ {
+				nextIndex++
+				idx := nextIndex
+				id := uint32(700000000 + 10*path + m)
+				farm.Plan(idx, Behaviour{Mangle: m})
+				var udpIDs, tcpIDs []uint32
+				switch path {
+				case pathUDP:
+					udpIDs = []uint32{id}
+				case pathTCP:
+					tcpIDs = []uint32{id}
+				}
+				u := farmClient(farm, 0, T, udpIDs, tcpIDs)
+				e, err := u.GetEvent(id, idx)
+				calls++
+				pn := []string{"broadcast", "udp", "tcp"}[path]
+				js := map[string]any{"op": "net-reply", "path": pn, "mangle": mangleNames[m]}
+				switch {
+				case m == 0 && (err != nil || e == nil || e.Index != idx):
+					s.Fail(js, fmt.Sprintf("a well-formed reply from the addressed controller was not accepted (%v)", err))
+				case m == 8 && err == nil && e != nil:
+					// 0x19 is only legal for function 0x20 (events): any other function with SOM 0x19 must be refused
+					s.Fail(js, "a reply with protocol id 0x19 and a function other than 0x20 was accepted")
+				case m != 0 && m != 8 && err == nil && e != nil:
+					accepted++
+					s.Fail(js, fmt.Sprintf("a datagram that is not a well-formed reply from the addressed controller (%s) was returned as the result over %s", mangleNames[m], pn))
+				}
+			}
+		}
+	}
+	s.Extra["net_calls"] = calls
+	s.Extra["net_malformed_accepted"] = accepted
 }
